@@ -89,7 +89,7 @@ def events(ctx):
             p = rand_params(rng, ts, n)
             p["service"], p["msgcnt"] = 17, 0
             yield record("tm.rt", {"p": p, "sfx": [1, 2, 3], "via": "srv17"})
-    for n in ctx.q([255, 256, 4095], [255, 256, 4095, 65520, 65527 - 7, 65527 - 7 + 1]):
+    for n in ctx.q([255, 256, 4095, 65527 - 7, 65527 - 7 + 1], [255, 256, 4095, 65519, 65527 - 7, 65527 - 7 + 1]):
         yield record("tm.rt", {"p": rand_params(rng, 7, n), "sfx": [], "via": "tm"})
     for f, vals in (("apid", range(0, 2048, 7)), ("seq", range(0, 16384, 61)), ("service", range(256)),
                     ("subservice", range(256)), ("msgcnt", [1 << i for i in range(16)] + [65535, 0xAA55]),
